@@ -1,5 +1,6 @@
 import DelbModel.Model.Wrapping
 import DelbModel.Lemmas.WrapTransparent
+import DelbModel.Lemmas.WrapFuel
 import DelbModel.Props.C03
 /-!
 # C03, line widths ≥ 1 — the text-wrapping serializer is whitespace-transparent
@@ -76,5 +77,85 @@ theorem c03_wrapped_nonws_unaltered (o : Opts) (ho : IndentOk o) (hnl : '\n' ∉
 example : ∃ ps, wrapRoot ⟨"  ".toList, false⟩ 12 [("", "")]
     (.tag "" "p" [] [.text "Hold ".toList, .tag "" "hi" [] [.text "the".toList], .text " thieves, now!".toList]) = .ok ps :=
   ⟨_, rfl⟩
+
+/-! ## totality
+
+The model recurses on an explicit budget (`fuelFor root = 8 * size root + 32`, also used for every
+`_required_space` look-ahead) and reports `Err.invalidCodePath "fuel"` when it is exhausted; the theorems
+above assume a run that ended in `.ok`.  The following theorems say that such a run always exists.
+-/
+
+/-- **the recursion budget suffices**: for every tree, all format options, every width and every prefix map
+    the run of the text-wrapping serializer does not end with an exhausted budget. -/
+theorem c03_wrapped_fuel_suffices (o : Opts) (width : Nat) (m : Dict) (root : Node) :
+    wrapRoot o width m root ≠ .error (.invalidCodePath "fuel") :=
+  wrapRoot_noFuel o width m root
+
+/-- which budgets suffice: `_required_space` needs `3 * size root + 1` (it walks along `_fetch_following`, at
+    most once over every node that follows in document order, with up to three nested calls per node), the
+    serializer proper `6 * size root - 2` (five nested calls per level, one per preceding sibling, one for the
+    second attempt after a line break) — both below `fuelFor root`. -/
+theorem c03_wrapped_budget (e : Env) (hreq : 3 * size e.root + 1 ≤ e.fuel) (fuel : Nat)
+    (hfuel : 6 * size e.root ≤ fuel + 2) (ad : List (Str × Str)) (st : St) :
+    serializeTag e fuel [] ad st ≠ .error (.invalidCodePath "fuel") :=
+  (noFuel_iff _).1 ((machine_noFuel e (reqOk_of_le e hreq) fuel).2.2.1 [] e.root ad st rfl hfuel)
+
+/-- `_required_space` alone, for any node and any limit -/
+theorem c03_wrapped_required_space_budget (e : Env) (fuel : Nat) (hfuel : 3 * size e.root + 1 ≤ fuel)
+    (p : Path) (upTo : Int) : requiredSpace e fuel p upTo ≠ .error (.invalidCodePath "fuel") :=
+  (noFuel_iff _).1 ((requiredSpace_noFuel e fuel).1 p upTo (by have := rest_le e.root p; omega))
+
+/-- **totality**: for every tag node, all format options, every width and every prefix map that has a prefix
+    for each namespace of the tree, the text-wrapping serializer yields an output (no assertion fails, no
+    `IndexError`, `StopIteration` or `KeyError` is raised, the budget is not exhausted).  No assumption on
+    the content of the tree: it need not be whitespace-reduced, text nodes may be empty or adjacent. -/
+theorem c03_wrapped_total_of_prefixes (o : Opts) (width : Nat) (m : Dict) (t : Node) (htag : t.isTag = true)
+    (hm : ∀ ns ∈ treeNamespaces t, (dget m ns).isSome) : ∃ out, wrapRoot o width m t = .ok out :=
+  wrapRoot_total o width m t htag hm
+
+set_option linter.unusedVariables false in
+/-- totality under the hypotheses of `c03_wrapped_transparent_partial` (of `PMapOk` only `total` is used) -/
+theorem c03_wrapped_total (o : Opts) (width : Nat) (nsmap m : Dict) (t : Node) (htag : t.isTag = true)
+    (hm : PMapOk nsmap m t) : ∃ out, wrapRoot o width m t = .ok out :=
+  wrapRoot_total o width m t htag hm.total
+
+/-- the whole call `serialize(format_options=FormatOptions(width ≥ 1, …))`, collecting the prefixes included,
+    does not exhaust the budget … -/
+theorem c03_serialize_wrapped_fuel_suffices (o : Opts) (width : Nat) (hw : 1 ≤ width) (nsmap : Dict)
+    (root : Node) (orders : List (List String)) :
+    serializeWrapped o width nsmap root orders ≠ .error (.invalidCodePath "fuel") :=
+  serializeWrapped_noFuel o width hw nsmap root orders
+
+/-- … and yields an output once the prefixes are collected (C13: that map covers the tree) -/
+theorem c03_serialize_wrapped_total (o : Opts) (width : Nat) (hw : 1 ≤ width) (nsmap : Dict)
+    (hn : NsMapOk nsmap) (root : Node) (htag : root.isTag = true)
+    (orders : List (List String)) (ho : ordersValid root orders = true) (m : Dict)
+    (h : collect nsmap root orders = .ok m) :
+    ∃ out, serializeWrapped o width nsmap root orders = .ok out := by
+  have hm := c13_collect_ok nsmap hn root orders ho m h
+  obtain ⟨out, hout⟩ := c03_wrapped_total o width nsmap m root htag hm
+  refine ⟨out, ?_⟩
+  have h0 : (width == 0) = false := by simp; omega
+  simp [serializeWrapped, h, h0, hout]
+
+/-- transparency without the assumption of a successful run -/
+theorem c03_wrapped_transparent_total (o : Opts) (ho : IndentOk o) (hnl : '\n' ∉ o.indent)
+    (width : Nat) (hw : 1 ≤ width)
+    (nsmap m : Dict) (hn : NsMapOk nsmap) (t : Node)
+    (htag : t.isTag = true) (hs : Serializable t) (hm : PMapOk nsmap m t) (hr : Reduced t) :
+    ∃ ps u, wrapRoot o width m t = .ok ps ∧ build (eraseAll ps) = some u ∧ reduceSpec pyWs u = normalize t := by
+  obtain ⟨ps, hps⟩ := c03_wrapped_total o width nsmap m t htag hm
+  obtain ⟨u, hu⟩ := c03_wrapped_transparent_partial o ho hnl width hw nsmap m hn t htag hs hm hr ps hps
+  exact ⟨ps, u, hps, hu⟩
+
+/-! non-vacuity: the model evaluated on a small tree yields an output, the text wrapped over two lines (`<p>\n ab\n cd\n</p>`),
+    and the hypothesis of the totality theorem holds for the tree of the example above -/
+example : wrapRoot ⟨" ".toList, false⟩ 3 [("", "")] (.tag "" "p" [] [.text "ab cd".toList]) =
+    .ok [.stag "p".toList [] [] false, nl, .layout " ".toList, .text "ab".toList, nl,
+         .layout " ".toList, .text "cd".toList, nl, .etag "p".toList] := by rfl
+
+example : ∃ ps, wrapRoot ⟨"  ".toList, false⟩ 12 [("", "")]
+    (.tag "" "p" [] [.text "Hold ".toList, .tag "" "hi" [] [.text "the".toList], .text " thieves, now!".toList]) = .ok ps :=
+  c03_wrapped_total_of_prefixes _ _ _ _ rfl (by decide)
 
 end Delb.Wrapping
